@@ -104,9 +104,18 @@ def runFull (m : List (String × String)) : String :=
   | none => "error unknown-pipeline"
   | some p => if (violations p).all (fun v => decide (6 ≤ v.rule)) then "clean" else "dirty"
 
+/-- a `spin` line (upstream and caller never stop, the deadline fires while they stream): the real
+    fan-in must return anyway — what `pipeline_every_fair_run_terminates` gives when the regenerated IR
+    has no violation of W0–W5 -/
+def runSpin (m : List (String × String)) : String :=
+  match Gen.Pipes.all.find? (·.name == look m "p") with
+  | none => "error unknown-pipeline"
+  | some p => if (violations p).all (fun v => decide (6 ≤ v.rule)) then "exits" else "may-hang"
+
 def step (line : String) : String :=
   match words line with
   | "sc" :: rest => runScenario (kvs rest)
+  | "spin" :: rest => runSpin (kvs rest)
   | "full" :: rest => runFull (kvs rest)
   | ["wf", name] => runWf name
   | _ => "error bad-line"
